@@ -22,10 +22,35 @@ impl ParseTree
 		source: &str,
 	) -> impl Iterator<Item = String>
 	{
-		self.declarations.iter().flat_map(|&node_id| {
-			print_xml(&self.nodes, node_id, tokens, source)
+		// The tree can be very deep (a long list is a chain of `ListItem`s),
+		// so the nodes that are being printed are kept on an explicit stack.
+		let mut stack: Vec<Box<dyn Iterator<Item = Xml>>> = Vec::new();
+		let mut declarations = self.declarations.iter();
+		std::iter::from_fn(move || {
+			loop
+			{
+				let node_id = match stack.last_mut().map(|parent| parent.next())
+				{
+					Some(Some(Xml::Line(line))) => return Some(line),
+					Some(Some(Xml::Node(node_id))) => node_id,
+					Some(None) =>
+					{
+						stack.pop();
+						continue;
+					}
+					None => *declarations.next()?,
+				};
+				stack.push(print_xml(&self.nodes, node_id, tokens, source));
+			}
 		})
 	}
+}
+
+/// A line of XML, or a node that has yet to be printed.
+enum Xml
+{
+	Line(String),
+	Node(NodeId),
 }
 
 fn print_xml(
@@ -33,10 +58,10 @@ fn print_xml(
 	node_id: NodeId,
 	tokens: &Tokens,
 	source: &str,
-) -> Box<dyn Iterator<Item = String>>
+) -> Box<dyn Iterator<Item = Xml>>
 {
 	use ParseNode::*;
-	use std::iter::once;
+	let once = |line: String| std::iter::once(Xml::Line(line));
 
 	let get_source = |token_id: parse_node::TokenId| {
 		let location = tokens.get_location(token_id.into());
@@ -66,13 +91,12 @@ fn print_xml(
 			.join("|")
 	};
 
-	let print_item =
-		|node_id: NodeId| print_xml(nodes, node_id, tokens, source);
+	let print_item = |node_id: NodeId| std::iter::once(Xml::Node(node_id));
 	let print_prev = |node_id: usize| print_item(NodeId(U24::new(node_id)));
 	let print_list = |node_id: NodeId, meta: &'static str| {
 		Box::new(
 			once(format!("<List meta=\"{meta}\">"))
-				.chain(print_xml(nodes, node_id, tokens, source))
+				.chain(print_item(node_id))
 				.chain(once(format!("</List>"))),
 		)
 	};
@@ -528,7 +552,7 @@ fn print_xml(
 			)))
 		}
 
-		(Item { at }, _) => print_item(at),
+		(Item { at }, _) => Box::new(print_item(at)),
 		(ListItem { next }, _) =>
 		{
 			Box::new(print_prev(i - 1).chain(print_item(next)))
